@@ -147,7 +147,7 @@ static void RegPrefix(
             goto inv16;
         }
         pInfo->CodeLen = PrefixLen + 1;
-        SimpleNextAddress(pInfo, Address);
+        pInfo->NextAddressCount = 0; /* control does not come back here */
         as_snprintf(pInfo->SrcLine, sizeof(pInfo->SrcLine), "retn");
         break;
     case 0x06:
@@ -853,12 +853,12 @@ static void Disassemble_87C800(
             break;
         case 0x04:
             pInfo->CodeLen = 1;
-            SimpleNextAddress(pInfo, Address);
+            pInfo->NextAddressCount = 0; /* control does not come back here */
             as_snprintf(pInfo->SrcLine, sizeof(pInfo->SrcLine), "reti");
             break;
         case 0x05:
             pInfo->CodeLen = 1;
-            SimpleNextAddress(pInfo, Address);
+            pInfo->NextAddressCount = 0; /* control does not come back here */
             as_snprintf(pInfo->SrcLine, sizeof(pInfo->SrcLine), "ret");
             break;
         case 0x06:
